@@ -85,9 +85,12 @@ class Jet(object):
 
   def __pow__(self, e):
     if isinstance(e, Jet):
-      # a**b = exp(b log a)
+      # a**b = exp(G), G = b log a : value kept as the POW atom the code builds,
+      # derivatives v*G' and v*(G'' + G'^2)
       from . import mathshim
-      return mathshim.exp(e * mathshim.log(self))
+      G = e * mathshim.log(self)
+      v = self.v ** e.v
+      return Jet(v, v * G.d1, v * (G.d2 + G.d1 * G.d1))
     if not _num(e):
       return NotImplemented
     if isinstance(e, (int, float)) and not isinstance(e, SReal) and float(e) == int(e):
